@@ -16,13 +16,27 @@ Grid == IF Thorough THEN Shapes(3, 3) \cup Shapes(5, 2)
 GridSeq == SetToSeq(Grid)
 Lrs == <<Q(1, 100), Zero, Q(-1, 2), Two, Q(1, 3)>>
 Descs == MyCases(Flatten2([i \in DOMAIN GridSeq |->
-            [l \in DOMAIN Lrs |-> <<"ok", GridSeq[i], Lrs[l], l = 1>>] \o << <<"nograd", GridSeq[i], Half, FALSE>>, <<"two", GridSeq[i], Q(1, 4), FALSE>> >>]))
+            [l \in DOMAIN Lrs |-> <<"ok", GridSeq[i], Lrs[l], l = 1>>] \o << <<"nograd", GridSeq[i], Half, FALSE>>, <<"two", GridSeq[i], Q(1, 4), FALSE>>, <<"again", GridSeq[i], Q(1, 4), FALSE>> >>]))
 
 Build(d) ==
   LET inputs == <<In("w", d[2], TRUE), In("c", d[2], FALSE), In("u", d[2], d[1] = "ok")>>
       code == <<Ins("mul", NoPar, <<1, 2>>)>>
-      base == MkCase("c17", "sgd", inputs, <<"any", "any,wide,t0,huge", "any">>, code, <<4>>, 4, FALSE)     \* t0: a gradient that is exactly zero everywhere
-  IN IF d[1] = "two"
+      base == MkCase("c17", "sgd", inputs, <<"any,any,any,any,t0", "any,wide,t0,huge,tiny250", "any">>, code, <<4>>, 4, FALSE)      \* last profile: w = 0 and a gradient below the library's equality tolerance everywhere     \* t0: a gradient that is exactly zero everywhere
+  IN IF d[1] = "again"
+     THEN (* the SAME tensor object is updated twice by one optimizer object (through two pointers), its gradient having grown in *)
+          (* between by the back-propagation of a second graph over the same leaf: each Update uses the gradient current then   *)
+          LET in3 == <<In("w", d[2], TRUE), In("c", d[2], FALSE), In("e", d[2], FALSE)>>
+              code3 == <<Ins("mul", NoPar, <<1, 2>>), Ins("mul", NoPar, <<1, 3>>)>>
+              g1 == GradDef(in3, code3, 4, 1)
+              g2 == GradDef(in3, code3, 5, 1)
+              gsum == [i \in DOMAIN g1 |-> Add(g1[i], g2[i])]
+          IN MkCase("c17", "sgd-again", in3, <<"any", "any", "any">>, code3, <<4, 5>>, 4, FALSE)
+             @@ [nograd |-> <<2, 3, 5>>,
+                 post |-> <<EncIns(Ins("sgd", [k |-> d[3], nilconf |-> FALSE, inst |-> 1], <<1>>)), EncIns(Ins("bp", NoPar, <<5>>)),
+                            EncIns(Ins("sgd", [k |-> d[3], nilconf |-> FALSE, inst |-> 1], <<1>>))>>,
+                 postouts |-> <<EncT(6, SGDStep(SymT("w", d[2]), [dims |-> d[2], data |-> g1], d[3])),
+                                EncT(7, SGDStep(SymT("w", d[2]), [dims |-> d[2], data |-> gsum], d[3]))>>]
+     ELSE IF d[1] = "two"
      THEN (* one optimizer object, two parameters of the same shape that are the operands of ONE Add (no broadcasting): the  *)
           (* back-propagation hands both the very same gradient tensor; each must still be updated from its own value        *)
           LET in2 == <<In("w", d[2], TRUE), In("v", d[2], TRUE), In("c", d[2], FALSE)>>
